@@ -78,7 +78,7 @@ def transform(text, prog, workdir):
 
 def gen_cases(ctx, n):
     cases = []
-    cells = [(o, p) for o in OPTS for p in POPS]
+    cells = [(o, p) for o in OPTS for p in POPS] + [(o, p) for o in ('R0', 'M', 'MR0') for p in POPS]
     if os.environ.get('VERIF_POPS'):      # development only: restrict the populations / options
         cells = [c for c in cells if c[1] in os.environ['VERIF_POPS'].split(',')]
     if os.environ.get('VERIF_OPTS'):
@@ -97,13 +97,15 @@ def gen_cases(ctx, n):
 
 
 def run(ctx):
+    S.install_nonfinite_guard()
     dev = int(os.environ.get('VERIF_CASES', '0') or 0)     # development only: fewer cases
     if ctx.replay:
         c = ctx.replay['case']
         cases = [(c['prog'], c['inputs'])]
     else:
         ctx.mc('MC_AssocResolve', 'MC_AssocResolve', workers=4, timeout=900, coverage=False)    # design level, see the module header
-        cases = gen_cases(ctx, dev or (len(OPTS) * len(POPS) if ctx.quick else 8 * len(OPTS) * len(POPS)))
+        ncell = (len(OPTS) + 3) * len(POPS)
+        cases = gen_cases(ctx, dev or (ncell if ctx.quick else 6 * ncell))
     results, fails, legal = F.behaviour_check(ctx, 'assoc', cases, transform)
     recheck = None if ctx.quick and not ctx.replay else F.make_recheck(ctx, transform)
     deadline = time.time() + 420
